@@ -202,7 +202,7 @@ theorem C02_once_step (env : Env) (rules : List Rule) (tx : Tx) (c : Call) :
     split; · left; rfl
     split; · left; rfl
     rename_i h _
-    right; obtain ⟨a, b⟩ := evalPhase_log env rules 3 tx
+    right; obtain ⟨a, b⟩ := evalPhase_log env rules 3 { tx with respStatus := tx.respCode }
     exact ⟨a, b, fun _ => by omega⟩
   | respBody =>
     simp only [apiStep, Call.phase]
